@@ -51,6 +51,13 @@ def gen(rng, tier):
             elif i % 6 == 1:
                 c['little'] = True      # the same file as a little-endian machine writes it, opened with endian='little'
         out.append(c)
+    for name in camx.NAMES:
+        # every NAME with several layers and several steps written on every run (3-D gridded emissions included)
+        c = camx.gen_uamiv(rng)
+        while c['nz'] < 2 or len(c['tflag']) < 2:
+            c = camx.gen_uamiv(rng)
+        c.update(name=name, kind='write', vdtype=rng.choice(['f', 'd']))
+        out.append(c)
     for i in range(n // 2):
         # whole-day and half-day steps (the hour column repeats) on every run
         c = S.gen(rng, longspan=[None, None, 24, None, None, 12, None][i % 7])
